@@ -14,7 +14,7 @@ CLAIMS = {
             'RF55 kill set of memory availability, RF62 combiner memory staleness, RF63 one-step builtin conversions, RF64 range predicates on un-narrowed values, '
             'RF30 no cloning of switch/jmpi blocks, RF68 memory-clobber opcodes in GVN availability, RF69 alloca escape through call arguments, RF70 loop-phi guard of ssa_combine, '
             'RF18b rewrite classifiers, RF32 incl. the combiner move, RF67 null-then-dereference, RF32t trapping divisions (abstract execution of the LICM guard), '
-            'RF86 division folds cannot trap, RF87 power-of-two width, RF97 call liveness of by-value blocks, RF9 overflow producers are flag-setting instructions (no lea), RF99 tied globals at calls (known finding), RF110 machinize-eliminated FP opcodes not produced by the combiner, RF114 renaming shortcut of make_conventional_ssa (lost copy / swap), RF70 incl. the branch folder, RF120 growth loops, RF131 spill/restore order at one place, RF48b opcode maps, RF138 reference operand equality, RF54 incl. cross-class loads, RF140 early clobbers vs pattern scratch registers, RF148 operand exchanges keep SSA edges, memory-type key of GVN merges only value-equal types (RF149), extension-pair decision helpers (RF23 helper form)',
+            'RF86 division folds cannot trap, RF87 power-of-two width, RF97 call liveness of by-value blocks, RF9 overflow producers are flag-setting instructions (no lea), RF99 tied globals at calls (known finding), RF110 machinize-eliminated FP opcodes not produced by the combiner, RF114 renaming shortcut of make_conventional_ssa (lost copy / swap), RF70 incl. the branch folder, RF120 growth loops, RF131 spill/restore order at one place, RF48b opcode maps, RF138 reference operand equality, RF54 incl. cross-class loads, RF140 early clobbers vs pattern scratch registers, RF148 operand exchanges keep SSA edges, memory-type key of GVN merges only value-equal types (RF149), extension-pair decision helpers (RF23 helper form), per-instruction scratch of the conflict builder (RF179)',
             'Decides named structural clauses that are necessary conditions of generator/interpreter equivalence: the GVN constant '
             'folder applies per opcode the same C operator on the same operand width/signedness as the interpreter; every opcode that '
             'reaches instruction selection has a pattern; x86 encodings carry the width, signedness and condition code the opcode name '
@@ -31,7 +31,7 @@ CLAIMS = {
             'code-write protocol (RF4d), label-operand position agreement between duplicator, simplifier and interpreter (RF7g), '
             'interface switch protocol: single writer of the public address and thunk redirection on every setter path (RF31), '
             'indirect-jump CFG edges (RF33), origin of addresses stored into lref data (RF42), address-taken labels (RF52/RF53), API view of a callee at link time (RF56), '
-            'direct-call offset range test (RF64), direct-call patching needs machine code (RF77), interpreter label unit (RF89), dynamic stack alignment of the call wrapper (RF11a), positional pairing of label references and successor versions only under equal counts (RF104), interpreter shim block fetch vs psABI (RF111), one stable address per label under lazy bb generation (RF124), code address never used as the address value of a function (RF132), protect window covers the bytes written (RF4), shim block copies in the activation (RF147), loaded temp data addressed through item->addr by both engines (RF151), bb version generation never edits the shared instruction list (RF165), bb stubs only for a function whose generator state was just built (RF177)',
+            'direct-call offset range test (RF64), direct-call patching needs machine code (RF77), interpreter label unit (RF89), dynamic stack alignment of the call wrapper (RF11a), positional pairing of label references and successor versions only under equal counts (RF104), interpreter shim block fetch vs psABI (RF111), one stable address per label under lazy bb generation (RF124), code address never used as the address value of a function (RF132), protect window covers the bytes written (RF4), shim block copies in the activation (RF147), loaded temp data addressed through item->addr by both engines (RF151), bb version generation never edits the shared instruction list (RF165), bb stubs only for a function whose generator state was just built (RF177), size of register-passed blocks in the FFI cache key (RF182)',
             'Decides narrow structural necessary conditions of interface independence: the glue that switches a function from stub to '
             'generated code preserves every argument register and the stack, both thunk patterns have one size so retargeting never '
             'overwrites a neighbour, redirection writes go through the protected code-write path, label targets are rewired at the '
@@ -42,7 +42,7 @@ CLAIMS = {
             'RF28 alloca consolidation by path-wise linear forms, RF29 simplified memory operands, RF16j label forwarding-pointer scrub, RF38/41/48 '
             'folding and reversal tables, RF45 fresh merge registers, RF46 top alloca precedes calls, RF50 fresh inline registers, RF51 alignment inside the consolidated alloca area, '
             'RF56 inliner reads the API view of the callee, RF71 scans that run off the list, RF72 jump over code after a replaced ret, RF73 block argument copies released, '
-            'RF83 result extension in front of the common ret, RF90 merged alloca runs once, RF91 own register of the merged alloca, RF98 insertions inside the call bracket, RF100 address arithmetic never follows an overflow producer, RF113 link-time passes are not re-entered, RF48b no opcode map negates an ordered FP relation, RF46 incl. branches, RF142 single-register address shortcut of simplify_op, operand writes of the inliner are a frozen table (RF153), value-number table emptied by every per-function driver (RF161)',
+            'RF83 result extension in front of the common ret, RF90 merged alloca runs once, RF91 own register of the merged alloca, RF98 insertions inside the call bracket, RF100 address arithmetic never follows an overflow producer, RF113 link-time passes are not re-entered, RF48b no opcode map negates an ordered FP relation, RF46 incl. branches, RF142 single-register address shortcut of simplify_op, operand writes of the inliner are a frozen table (RF153), value-number table emptied by every per-function driver (RF161), FP constants looked up by bits (RF180), alloca after ret (RF46)',
             'Decides that the link-time shortcut set is disjoint from overflow-flag producers, that result/argument extension maps agree '
             'with the target\'s, that label bookkeeping covers every label-carrying opcode, that the inliner\'s consolidated alloca size '
             'covers every offset it hands out, that memory operands it builds are base-only, and that label forwarding pointers used '
@@ -52,7 +52,7 @@ CLAIMS = {
             'stack-slot alignment (RF10e), trampoline cache-key completeness and separation (RF12/RF12b), frame pointer kept around an sp bracket (RF126), register fit of one-class blocks (RF133), result extension index (RF144), container growth not skipped '
             '(RF3b), %al count (RF10h), block stack placement (RF10i), result extension after the result move (RF10j), prologue frame residues mod 16 (RF65), '
             'per-call trampoline buffer (RF47), narrowing maps (RF7f), extension map (RF7e), result moves anchored at the call (RF84), zero-size block copy template (RF74), '
-            'sp-dependent instructions not moved by the combiner (RF32), call liveness of by-value blocks (RF97), extension folding table also here (RF23), al set in front of a variadic native call (RF174)',
+            'sp-dependent instructions not moved by the combiner (RF32), call liveness of by-value blocks (RF97), extension folding table also here (RF23), al set in front of a variadic native call (RF174), call clobbers killed before implicit argument registers become live (RF178), size in the FFI cache key (RF182)',
             'Decides that every copy of the SysV argument/return register tables and counts in the FFI trampoline generator, the code '
             'generator and c2mir agree with the psABI and with each other; that block classes map to the register classes the psABI '
             'gives them; that register counters advance exactly for arguments passed in registers; that long double stack slots are '
@@ -60,7 +60,7 @@ CLAIMS = {
             '3 C05'),
     'C06': ('ABI constant agreement for the callee side (RF10/RF10b/RF10e): callee-saved set, vararg save-area layout, incoming long '
             'double slot alignment; VA_START and shim block tables (RF10f/g); save/restore symmetry of the machine-code templates (RF11); '
-            'single-return invariant (RF30); x86 pattern table incl. emission-time rewrites (RF9); prologue frame residues mod 16 by dataflow (RF65); spill-slot reuse inside the allocated slots (RF43), interpreter shim block fetch vs psABI (RF111), nothing saved below sp (RF127), register fit of one-class blocks (RF133), shim block copies in the activation (RF147), extension folding table (RF23), register-passed block storage covers whole eightbytes (RF155), no extension of an incoming parameter dropped (RF166)',
+            'single-return invariant (RF30); x86 pattern table incl. emission-time rewrites (RF9); prologue frame residues mod 16 by dataflow (RF65); spill-slot reuse inside the allocated slots (RF43), interpreter shim block fetch vs psABI (RF111), nothing saved below sp (RF127), register fit of one-class blocks (RF133), shim block copies in the activation (RF147), extension folding table (RF23), register-passed block storage covers whole eightbytes (RF155), no extension of an incoming parameter dropped (RF166), frame pointer kept around every sp adjustment (RF126)',
             'Decides table/constant agreement with the psABI, template symmetry, and that no pass can create a second return that the '
             'single epilogue would miss; does not decide register allocation.', '3 C06'),
     'C10': ('tagged-union discipline in the text writer (RF6), writer/scanner vocabulary agreement (RF7c), scanner input function '
@@ -75,7 +75,7 @@ CLAIMS = {
             'indeterminate byte reaches the output stream. Value encodings are not decided.', '3 C11'),
     'C12': ('bounded-write guard coverage in the decoder (RF13, including copy helpers and the written-prefix clause for back references), no wrap of the 32-bit '
             'range tests (RF13w: abstract execution of the number reader over all first bytes), check-hash zero-length guards on both sides (RF13h), literal-run invariant of the encoder (RF13s), verdict and end element taken by MIR_read (RF88), '
-            'encoder counter discipline (RF13c), back-reference offset computed from the dictionary as the lookup left it (RF105), each encoder buffer encoded once (RF135), sticky failure verdict of the decoder (RF146), failure exits (RF13e), check hash never narrowed (RF160), decoder follows every reference the encoder can write (RF173)',
+            'encoder counter discipline (RF13c), back-reference offset computed from the dictionary as the lookup left it (RF105), each encoder buffer encoded once (RF135), sticky failure verdict of the decoder (RF146), failure exits (RF13e), check hash never narrowed (RF160), decoder follows every reference the encoder can write (RF173), typestate of the encoder staging buffers (RF183)',
             'Decides the memory-safety clause only: every write into and copy within the decoder\'s fixed buffers is dominated by a '
             'bound check on the same index expression that covers the whole extent touched, also through copy helpers. Losslessness '
             'and detection of every corruption are not decided.', '3 C12'),
@@ -91,17 +91,17 @@ CLAIMS = {
             '3 C14'),
     'C15': ('operand-mode table vs specification (RF17), call-family coverage (RF7b) and operand classification (RF19c), memory-operand '
             'decision tables (RF19, RF19e), register-required operands (RF19d), register look-up rule (RF16h), output-capable operand modes (RF81), '
-            'null-then-dereference in the validator (RF67), operand-count exemptions (RF94), repeated-name check dominates every return of create_func_reg (RF102), operands exempt from validation and callee kind (RF134), mode comparison table (RF145), per-instruction checks per opcode and operand count (RF154), validation exemptions evaluated under every operand mode (RF134), expected modes of switch (RF169)',
+            'null-then-dereference in the validator (RF67), operand-count exemptions (RF94), repeated-name check dominates every return of create_func_reg (RF102), operands exempt from validation and callee kind (RF134), mode comparison table (RF145), per-instruction checks per opcode and operand count (RF154), validation exemptions evaluated under every operand mode (RF134), expected modes of switch (RF169), every diagnostic leaves the context without an open function (RF184)',
             'Decides the static table that the run-time validator consults, row by row against the documented grammar, and that error '
             'branches call the error function with a specific code.', '3 C15'),
     'C16': ('duplicate/restore protocol on every generation path (RF16a/b/i), scratch use of insn data scrubbed (RF16j), no instruction write '
             'before the working copy exists (RF16k), label-operand '
             'positions (RF7g), lref cell written by one engine (RF42b, known finding), API view of a callee (RF56), generator stores only engine-private '
-            'descriptor fields (RF66), direct-call patching needs machine code (RF77), generator state that outlives a function is reset on every path (RF107), growth loops of parallel vectors (RF120), thunk re-targeted by every interface setter (RF31b), code address never stands for the function (RF132), generator frees only its own item data (RF163)',
+            'descriptor fields (RF66), direct-call patching needs machine code (RF77), generator state that outlives a function is reset on every path (RF107), growth loops of parallel vectors (RF120), thunk re-targeted by every interface setter (RF31b), code address never stands for the function (RF132), generator frees only its own item data (RF163), lref cells survive a re-load (RF16f, RF171)',
             'Decides the must-pass-through protocol of generate_func_code, sibling agreement of saved/restored fields, and that every '
             'forwarding pointer parked in the original labels while instructions are copied is reset on every path.', '3 C16'),
     'C17': ('who-may-call allocator confinement (RF1), init/finish create-destroy pairing (RF2/RF27), single owner of item data (RF2b), realloc old-size contract (RF3), '
-            'code-memory write protocol (RF4), ownership of locally created containers and objects on every path (RF78, RF78b), region allocator of c2mir released only at session end (RF109), interpreter data released on every branch of MIR_link (RF122), owning slots of the generator context (RF130), no use of a bb_insn behind the deletion of its instruction (RF137), every variable vector re-interned on a context change (RF152), macro call under construction not on the stack (RF164), generator frees only its own item data (RF163), bb version generation never frees shared instructions (RF165)',
+            'code-memory write protocol (RF4), ownership of locally created containers and objects on every path (RF78, RF78b), region allocator of c2mir released only at session end (RF109), interpreter data released on every branch of MIR_link (RF122), owning slots of the generator context (RF130), no use of a bb_insn behind the deletion of its instruction (RF137), every variable vector re-interned on a context change (RF152), macro call under construction not on the stack (RF164), generator frees only its own item data (RF163), bb version generation never frees shared instructions (RF165), one releaser for a redundant declaration item (RF181), interpreter data released before the inline flag (RF185)',
             'Decides for every function of the three library units that no C-library allocator is referenced outside the default '
             'callbacks, that every MIR_realloc passes the container\'s true previous capacity, that every container created at init is '
             'destroyed at finish, and that code memory is written only between protect(write) and protect(exec). Heap ownership that '
@@ -111,7 +111,7 @@ CLAIMS = {
             'pointer through which its type is written. Schedules are not explored.', '3 C18'),
     'C20': ('opcode template signature agreement under every operand kind (RF8), opcode coverage (RF7h), operand union discipline (RF6), '
             'register typing (RF21), FP constant precision (RF37), overflow flags (RF57), reference operands (RF58), item declarations and call text by abstract '
-            'execution of the printer over model modules (RF59, RF60, RF61), special immediates (RF92), data strings in comments (RF93), element printer (RF95), fixed-length string escapes (RF103), long double never narrowed in printers (RF112), declarations of one name connected by add_item (RF117), non-finite data elements (RF118c), source signedness of integer-to-FP conversions (RF139), wrapping operators computed in unsigned types (RF8 clause), overflow templates executed: types, flags, result through a temporary assigned last (RF156), address text of memory operands evaluated (RF167), translator never writes into the module (RF175)',
+            'execution of the printer over model modules (RF59, RF60, RF61), special immediates (RF92), data strings in comments (RF93), element printer (RF95), fixed-length string escapes (RF103), long double never narrowed in printers (RF112), declarations of one name connected by add_item (RF117), non-finite data elements (RF118c), source signedness of integer-to-FP conversions (RF139), wrapping operators computed in unsigned types (RF8 clause), overflow templates executed: types, flags, result through a temporary assigned last (RF156), address text of memory operands evaluated (RF167), translator never writes into the module (RF175), FP immediates keep a decimal point in C (RF37 clause), export in front of its data (RF60)',
             'Decides that each opcode\'s C template uses the operator/width/signedness the interpreter uses, that every public opcode has '
             'a case, and that out_op reads the union member matching the operand mode.', '3 C20'),
 }
